@@ -103,7 +103,12 @@ def run(ctx):
             E = bnp.open(path, buffer_type=bt, lazy=False).read()
             L0, E0 = bnp.open(path, buffer_type=bt, lazy=True).read(), bnp.open(path, buffer_type=bt, lazy=False).read()
         history = []
-        wit0 = {"format": fname, "chunked": case["chunked"], "seed": case["seed"], "source": fc["data"].decode("latin1")[:800]}
+        # blind programs: the rows of an intermediate table are not read by the harness (reading parses and caches every field of the lazy
+        # table, which changes what the following steps exercise); fields, entries, tolist and written bytes are still compared, and the
+        # rows of the last table are compared at the end
+        blind = r.random() < 0.4
+        unread = False
+        wit0 = {"format": fname, "chunked": case["chunked"], "seed": case["seed"], "blind": blind, "source": fc["data"].decode("latin1")[:800]}
         script = None
         if r.random() < 0.3:
             script = ["field", "index", "replace", "concat", "write"]      # the interleaving named by the property
@@ -281,6 +286,19 @@ def run(ctx):
                 ctx.count("failed_in_both_modes")
                 return
             L2, E2 = res[1], res[2]
+            if blind:
+                res = both(lambda: len(L2), lambda: len(E2))
+                if res[0] == "raised-one":
+                    one_sided(res[1] + "(len of the result)", res[2])
+                    return
+                if res[0] == "ok" and res[1] != res[2]:
+                    differ("len after " + op, res[1], res[2])
+                    return
+                ctx.judged(key, nt)
+                ctx.count("blind_steps")
+                L, E = L2, E2
+                unread = True
+                continue
             res = both(lambda: (len(L2), observe(L2, fmt)), lambda: (len(E2), observe(E2, fmt)))
             if res[0] == "raised-one":
                 one_sided(res[1] + "(reading the result)", res[2])
@@ -296,6 +314,16 @@ def run(ctx):
             ctx.judged(key, nt)
             m5(L2, wit, op)
             L, E = L2, E2
+        if blind and unread:
+            key = "%s.chain-end" % (fname if fname in ("vcf", "sam", "fastq", "fasta2") else "delimited")
+            wit = dict(wit0, program=history)
+            res = both(lambda: observe(L, fmt), lambda: observe(E, fmt))
+            if res[0] == "raised-one":
+                et, site = exc_site(res[2])
+                ctx.check(key, False, "%s/fails-in-%s-mode-only:%s@%s" % (key, res[1], et, site), "reading the rows at the end of an unread chain raised %s in %s mode only" % (et, res[1]), dict(wit, error=str(res[2])[:300]), None)
+            elif res[0] == "ok":
+                ctx.check(key, tables.values_equal([list(x) for x in res[1]], [list(x) for x in res[2]]), "%s/lazy!=eager:rows" % key, "rows at the end of an unread chain differ: lazy %r eager %r" % (res[1][:3], res[2][:3]),
+                          dict(wit, lazy=str(res[1])[:600], eager=str(res[2])[:600]), (fc["data"], repr(history)) if len(res[2]) >= 2 else None)
 
     def bam_case(case):
         import os
